@@ -94,6 +94,46 @@ Fixpoint bparse (fuel : nat) (s : list N) : list (list N) * bparse_end :=
     end
   end.
 
+(* ---- several senders on one connection (byte level) ----
+   Every sender of a connection (the Writer goroutine draining WriteChan, the peer-list goroutine started by
+   connectionMainHandling, whoever calls sendPacketLock) seals under the connection lock and hands the frame to
+   net.Conn.Write AFTER the lock is released.  The runtime serialises the Write calls of one connection as wholes (the
+   write lock of the descriptor is held until the last byte of that call is out, however often the kernel takes only
+   a part), so the byte stream the peer reads is the concatenation of the Write calls in the order in which they got
+   the socket.  A schedule is that order: its elements name the sender whose next pending Write goes out (a sender
+   with nothing pending is skipped).  The queues hold the pending Writes of every sender, oldest first. *)
+Fixpoint pop_write {A} (i : nat) (queues : list (list A)) : option (A * list (list A)) :=
+  match queues, i with
+  | [], _ => None
+  | [] :: _, O => None
+  | (w :: q) :: r, O => Some (w, q :: r)
+  | q :: r, S i' => match pop_write i' r with Some (w, r') => Some (w, q :: r') | None => None end
+  end.
+
+Fixpoint run_schedule {A} (sched : list nat) (queues : list (list A)) : list (nat * A) * list (list A) :=
+  match sched with
+  | [] => ([], queues)
+  | i :: r =>
+    match pop_write i queues with
+    | Some (w, qs) => let '(out, rest) := run_schedule r qs in ((i, w) :: out, rest)
+    | None => run_schedule r queues
+    end
+  end.
+
+(* the Writes in the order they went out, and those of one sender among them *)
+Definition scheduled {A} (sched : list nat) (queues : list (list A)) : list A := map snd (fst (run_schedule sched queues)).
+Definition of_sender {A} (i : nat) (out : list (nat * A)) : list A :=
+  map snd (filter (fun x => Nat.eqb (fst x) i) out).
+
+(* sendPacketLock: ONE Write of length prefix ++ body *)
+Definition writes_atomic (body : list N) : list (list N) := [bframe body].
+(* the variant that is NOT the code: prefix and body in two Write calls *)
+Definition writes_split (body : list N) : list (list N) := [hdr_encode (blen body); body].
+
+(* the stream on the wire: senders = the bodies every sender emits, in its order; mode = how a body becomes Writes *)
+Definition wire_bytes (mode : list N -> list (list N)) (sched : list nat) (senders : list (list (list N))) : list N :=
+  concat (map snd (fst (run_schedule sched (map (fun bodies => concat (map mode bodies)) senders)))).
+
 (* plaintext of a frame *)
 Definition wire_type (ty : N) : N := (ty + 2) mod 65536.       (* uint16(p.Type) + 2 *)
 Definition payload_encode (wt : N) (d : list N) : list N := le_encode 2 wt ++ d.
@@ -282,6 +322,9 @@ Definition seal_frame (k : key) (nonce : N) (wt : N) (d : list N) : list chunk :
   let m := payload_encode wt d in
   [Raw (hdr_encode (NONCE_SIZE + blen m + TAG_SIZE)); cipher_encrypt k nonce m].
 
+(* the length prefix sendPacketLock puts in front of a packet with |data| = dlen: nonce + type + data + tag *)
+Definition frame_body_len (dlen : N) : N := NONCE_SIZE + (2 + dlen) + TAG_SIZE.
+
 (* frames for a list of wire-level packets, nonces supplied by the environment *)
 Fixpoint send_wire (k : key) (pkts : list (N * list N)) (nonces : list N) : list chunk :=
   match pkts, nonces with
@@ -293,6 +336,20 @@ Fixpoint send_wire (k : key) (pkts : list (N * list N)) (nonces : list N) : list
 Definition to_wire (p : N * list N) : N * list N := (wire_type (fst p), snd p).
 Definition send (k : key) (pkts : list (N * list N)) (nonces : list N) : list chunk :=
   send_wire k (map to_wire pkts) nonces.
+
+(* several senders (see run_schedule): what one sender emits for a packet handed to it together with the nonce
+   crypto/rand gives it.  sendPacketLock: one Write of the whole frame; the variant: two Writes *)
+Definition sym_frame (k : key) (x : (N * list N) * N) : list chunk :=
+  seal_frame k (snd x) (wire_type (fst (fst x))) (snd (fst x)).
+Definition sym_writes_atomic (k : key) (x : (N * list N) * N) : list (list chunk) := [sym_frame k x].
+Definition sym_writes_split (k : key) (x : (N * list N) * N) : list (list chunk) :=
+  match sym_frame k x with
+  | h :: r => [[h]; r]
+  | [] => []
+  end.
+Definition wire_chunks (mode : (N * list N) * N -> list (list chunk)) (sched : list nat)
+    (senders : list (list ((N * list N) * N))) : list chunk :=
+  concat (map snd (fst (run_schedule sched (map (fun q => concat (map mode q)) senders)))).
 
 (* ---- handshake and connection state machine ---- *)
 
